@@ -1,6 +1,6 @@
 // C16 — tabs are always expanded before reaching the terminal.
 // @file-encodes progress_bar::ProgressBar::set_tab_width, progress_bar::ProgressBar::set_style, progress_bar::ProgressBar::set_message, progress_bar::ProgressBar::set_prefix, progress_bar::ProgressBar::finish_with_message, progress_bar::ProgressBar::message, progress_bar::ProgressBar::prefix, state::BarState::set_tab_width, state::BarState::set_style, state::TabExpandedString::new, state::TabExpandedString::expanded, state::TabExpandedString::set_tab_width, style::ProgressStyle::set_tab_width, style::Template::set_tab_width, style::ProgressStyle::format_state, draw_target::DrawState::draw_to_term
-// @file-assumes ProgressBar built directly from its fields (rig) over the abstract screen (term_like target, no rate limiter), W=24; Instant::now frozen; str::repeat = fixed-capacity filler; texts chosen from a fixed table of strings over {a, b, TAB} of length <= 2
+// @file-assumes ProgressBar built directly from its fields (rig) over the abstract screen (term_like target, no rate limiter), W=16; Instant::now frozen; str::repeat = fixed-capacity filler; texts chosen from a fixed table of strings over {a, b, TAB} of length <= 2
 #[cfg(kani)]
 mod verif_c16 {
     use super::verif_rig_pb::*;
@@ -19,7 +19,7 @@ mod verif_c16 {
     }
 
     /// expected expansion of TXT[i] with tab width tw, appended to `exp`
-    fn expand_into(exp: &mut Buf<48>, s: &str, tw: usize) {
+    fn expand_into(exp: &mut Buf<24>, s: &str, tw: usize) {
         let b = s.as_bytes();
         let mut i = 0;
         while i < b.len() {
@@ -38,7 +38,7 @@ mod verif_c16 {
         }
     }
 
-    fn same_str(a: &str, e: &Buf<48>) -> bool {
+    fn same_str(a: &str, e: &Buf<24>) -> bool {
         let b = a.as_bytes();
         if b.len() != e.n {
             return false;
@@ -54,7 +54,7 @@ mod verif_c16 {
     }
 
     fn run(nops: usize) {
-        let scr = leak_scr(24, 4);
+        let scr = leak_scr(16, 4);
         // template: literal "x<TAB>" + {prefix} + "|" + {msg}
         let spec = [RigPart::Lit("x\t"), RigPart::Key("prefix"), RigPart::Lit("|"), RigPart::Key("msg")];
         let bs = rig_bar(rig_pstate(1, Some(2), 0, 0), rig_style_spec(&spec), scr_target(scr), ProgressFinish::AndLeave);
@@ -70,7 +70,7 @@ mod verif_c16 {
             match op {
                 0 => {
                     let w: usize = kani::any();
-                    kani::assume(w <= 3);
+                    kani::assume(w <= 2);
                     pb.set_tab_width(w);
                     tw = w;
                 }
@@ -98,11 +98,11 @@ mod verif_c16 {
             i += 1;
         }
         // getters return the expanded text
-        let mut e: Buf<48> = Buf::new();
+        let mut e: Buf<24> = Buf::new();
         expand_into(&mut e, msg, tw);
         let m = pb.message();
         assert!(same_str(&m, &e));
-        let mut e: Buf<48> = Buf::new();
+        let mut e: Buf<24> = Buf::new();
         expand_into(&mut e, pre, tw);
         let p = pb.prefix();
         assert!(same_str(&p, &e));
@@ -111,35 +111,33 @@ mod verif_c16 {
         scr.cap_n.set(0);
         pb.force_draw();
         assert!(!scr.tab.get());
-        let mut exp: Buf<48> = Buf::new();
+        let mut exp: Buf<24> = Buf::new();
         expand_into(&mut exp, lit, tw);
         expand_into(&mut exp, pre, tw);
         exp.b[exp.n] = b'|';
         exp.n += 1;
         expand_into(&mut exp, msg, tw);
-        // the captured bytes start with the expected line (the rest is the right-edge filler)
-        assert!(scr.cap_n.get() >= exp.n);
+        // the captured bytes are the expected line followed by the right-edge filler only
+        assert!(exp.n <= 16);
+        let mut want = [0u8; 16];
         let mut k = 0;
-        while k < exp.n {
-            assert!(scr.cap[k].get() == exp.b[k]);
+        while k < 16 {
+            want[k] = exp.b[k];
             k += 1;
         }
-        while k < scr.cap_n.get() {
-            assert!(scr.cap[k].get() == b' ');
-            k += 1;
-        }
+        assert!(scr.cap_is(&want, exp.n));
         kani::cover!(tw == 0 && msg.len() == 2);
-        kani::cover!(tw == 3 && lit.as_bytes()[0] == b'\t');
+        kani::cover!(tw == 2 && lit.as_bytes()[0] == b'\t');
         std::mem::forget(m);
         std::mem::forget(p);
         std::mem::forget(pb);
     }
 
     // @harness id=C16 tier=quick timeout=3000 mem=16
-    // @bounds 2 symbolic operations out of {set_tab_width(0..=3), set_style(template literal with a TAB), set_message, set_prefix, finish_with_message} with texts from the table, then one forced draw on a 24-column screen
+    // @bounds 2 symbolic operations out of {set_tab_width(0..=2), set_style(template literal with a TAB), set_message, set_prefix, finish_with_message} with texts from the table, then one forced draw on a 16-column screen
     #[kani::proof]
-    #[kani::unwind(50)]
-    //@STUBS std now width repeat noterm nomulti
+    #[kani::unwind(18)]
+    //@STUBS std now widthascii repeat noterm nomulti posany rlany noweight
     fn c16_two_ops() {
         run(2);
     }
@@ -147,8 +145,8 @@ mod verif_c16 {
     // @harness id=C16 tier=thorough timeout=3400 mem=20
     // @bounds as c16_two_ops with 3 operations
     #[kani::proof]
-    #[kani::unwind(50)]
-    //@STUBS std now width repeat noterm nomulti
+    #[kani::unwind(18)]
+    //@STUBS std now widthascii repeat noterm nomulti posany rlany noweight
     fn c16_three_ops() {
         run(3);
     }
